@@ -160,6 +160,72 @@ def run(pid, vh_args, what, rule, assumptions, mc=(), extra_cov=None, vh_cmd="ma
     return rep.finish("model_checking", cov, assumptions)
 
 
+def cert_signatures(pid):
+    p = os.path.join(core.ROOT, "known_findings.json")
+    sigs = {}
+    for k in json.load(open(p)).get("findings", []):
+        if k.get("status") == "open" and str(k.get("signature", "")).startswith("cert-"):
+            sigs[k["signature"]] = dict(k, mine=(k.get("property") == pid))
+    return sigs
+
+
+def validate_cert(pid, traces, wd):
+    sigs = cert_signatures(pid)
+    kf = os.path.join(wd, "known_cert.json")
+    with open(kf, "w") as f:
+        json.dump(sorted(sigs), f)
+    return core.validate_traces("CertTrace.tla", "CertTrace.cfg", traces, pid + "-cert", env={"KNOWN": kf}, xmx="3g"), sigs
+
+
+def certification(pid):
+    """extra for macfam.run: the certification build (cargo feature `certification`) under CertTrace.tla"""
+    def fn(rep, wd):
+        d = os.path.join(wd, "cert")
+        os.makedirs(d, exist_ok=True)
+        core.run_vh("certwalk", d, shards=core.NCPU, cert=True,
+                    extra=["regions=EU868,US915"] if core.tier() == "thorough" else [])
+        traces = sorted(glob.glob(os.path.join(d, "mac.*.ndjson")))
+        res, sigs = validate_cert(pid, traces, d)
+        seen = {}
+        nviol = 0
+        for r in res:
+            for t in r["known"]:
+                m = _KNOWN.match(t)
+                if m and m.group(2) in sigs:
+                    seen[m.group(2)] = seen.get(m.group(2), 0) + 1
+            lines = sorted({int(_LINE.match(m).group(1)) for m in r["mismatches"] if _LINE.match(m)})
+            if not r["accepted"] and not lines:
+                lines = [r.get("matched", 0) + 1]
+            for ln in lines:
+                nviol += 1
+                if nviol > 20:
+                    continue
+                hist = history_of(r["trace"], ln)
+                ev = hist[-1]
+                mm = [m for m in r["mismatches"] if _LINE.match(m) and int(_LINE.match(m).group(1)) == ln]
+                rep.violation({"property": pid, "cert": True, "ops": ops_of(hist), "failing_event": {k: ev[k] for k in ev if k != "opj"},
+                               "mismatch": [m[:1500] for m in mm[:4]]},
+                              f"certification build: {hist[0]['region']}/{hist[0]['front']}{'/classC' if hist[0]['classc'] else ''} "
+                              f"event {len(hist)}: {(mm[0] if mm else 'trace rejected')[:260]}")
+        by_front = {}
+        for sig, n in sorted(seen.items()):
+            if sigs[sig]["mine"]:
+                by_front.setdefault(sigs[sig]["line"], []).append(sig.rsplit(":", 1)[-1])
+        for line, cids in by_front.items():
+            rep.known_finding(f"[S33] {line[:330]} (commands: {', '.join(cids)})")
+        n, hist, kinds, distinct = summarise(traces)
+        return {"_states": sum(r["distinct"] for r in res), "_transitions": sum(r["generated"] for r in res),
+                "_evaluations": n, "_distinct": distinct,
+                "certification_build": {"histories": hist, "events": n, "module": "CertTrace.tla",
+                                        "known_signatures_matched": seen,
+                                        "rule": "device built with cargo feature `certification`: every TS009 command (well-formed, malformed, unknown, "
+                                                "several per frame, EchoPayloadReq up to 242 octets) as the FPort-224 payload of an authentic downlink in "
+                                                "RX1 / RX2 / Class C listening, on nb, async and async+ClassC, followed by further uplinks; clauses: no "
+                                                "panic or hang, every transmitted frame a well-formed uplink with a valid MIC and a strictly increasing "
+                                                "counter, the device still transmits afterwards"}}
+    return fn
+
+
 def replay(pid, path):
     with open(path) as f:
         r = json.load(f)
@@ -168,8 +234,15 @@ def replay(pid, path):
     src = os.path.join(wd, "ops.json")
     with open(src, "w") as f:
         json.dump({"ops": r["ops"]}, f)
-    core.run_vh("macreplay", wd, extra=[f"in={src}"])
+    core.run_vh("macreplay", wd, extra=[f"in={src}"], cert=bool(r.get("cert")))
     traces = sorted(glob.glob(os.path.join(wd, "mac.*.ndjson")))
+    if r.get("cert"):
+        res, sigs = validate_cert(rp, traces, wd)
+        bad = [m for x in res for m in x["mismatches"]]
+        for m in bad[:3]:
+            print("REPLAY mismatch:", m[:400])
+        print("REPLAY", "violation reproduced" if bad else "no violation")
+        return 1 if bad else 0
     res, sigs = validate(rp, traces, wd)
     # known findings of the property itself still apply in a replay
     bad = [x for x in res if not x["accepted"]]
